@@ -182,10 +182,31 @@ CHECKS["C02"] = dict(
                "capacity >= size, comparisons and at() are compared with std::vector; every element construction/destruction/assignment is checked against a registry of live "
                "objects; allocator calls are balanced; flat_map / flat_set are compared with std::map / std::set. The twin of igris::vector in std_portable.h runs as a second part. Sampling, not proof",
     level_note="sequential refinement against a reference model; no scheduler dimension, and no fault dimension beyond allocator/memory behaviour (what fresh memory contains, whether a freed block comes "
-               "straight back). Argument aliasing (push_back(v[0])) and allocation failure are not generated: the property promises neither",
+               "straight back). Allocation failure is not generated: the property does not promise exception safety",
     rule="one run = one seeded op history over two vectors of one element type (or over one flat_map and one flat_set). non-trivial = a reallocation happened and an insert/erase "
          "not at the end was executed (flat: a lookup hit and a lookup miss); distinct = distinct hash of the op trace",
     simtime_units="container operations",
-    probes=["insert_at_realloc_boundary", "erase_prefix", "self_assign", "assign_from_empty", "fill_0xFF_memory", "range_insert", "copy_assign", "erase_tail", "freed_block_reused_at_once"],
-    assumptions=["elements passed to insert/push do not alias elements of the same vector", "allocation never fails"],
+    probes=["insert_at_realloc_boundary", "erase_prefix", "self_assign", "assign_from_empty", "fill_0xFF_memory", "range_insert", "copy_assign", "erase_tail", "freed_block_reused_at_once", "alias_argument_with_reallocation", "alias_argument_without_reallocation"],
+    assumptions=["allocation never fails"],
+)
+
+CHECKS["C14"] = dict(
+    engine="E6-hist",
+    level="exploration",
+    parts=[
+        dict(name="static", mode="asan", harness=["harness/C14_static.cpp"], igris=[], runs=dict(quick=40000, thorough=1500000)),
+        dict(name="twin", mode="asan", defs=["-DC14_TWIN"], harness=["harness/C14_static.cpp"], igris=["igris/util/numconvert.c"], runs=dict(quick=20000, thorough=700000)),
+    ],
+    design_ref="DESIGN.md 4.6, 5 (C14)",
+    technique="deterministic simulation of operation histories on container objects placed in simulated memory (exact-size SimAlloc blocks, seed-chosen fill), lifetime-tracking elements with storage-zone check, refinement against a reference truncated to N, ASan",
+    level_text="seeded histories over two static_vector<T,N> objects (N in {1,2,3,4,8}, T int or lifetime-tracked) and static_string<N> (N in {1,2,4,8}) offered 0..2N elements through "
+               "push/emplace/resize/constructors/assignment: size <= N, room, contents == reference prefix, c_str() terminated inside the object, every element constructed inside the "
+               "element storage and destroyed exactly once. The std_portable.h twins run as a second part. Sampling, not proof",
+    level_note="sequential refinement against a reference model; no scheduler dimension, and no fault dimension beyond object death and memory behaviour; members that do not compile "
+               "when instantiated (static_string::operator[] in static_string.h) are outside the property; the content of a moved-from container is not compared",
+    rule="one run = one seeded op history for one (element type, N) instantiation. non-trivial = at least one operation offered more than the remaining room; "
+         "distinct = distinct hash of the op trace",
+    simtime_units="container operations",
+    probes=["push_when_full", "ctor_2N_elements", "ctor_more_than_N_elements", "resize_beyond_N", "assign_over_nonempty", "self_assign", "erase", "ctor_ilist"],
+    assumptions=["single caller", "c_str() sources are NUL terminated"],
 )
